@@ -33,6 +33,8 @@ CLAIMS = {
          "(Purr/Spec/Automaton.lean), written from the property text and the OpenSMILES token tables with the element symbols taken from an independent periodic table, not from the reader: organic-subset atoms, *, bracket atoms with isotope < 1000, 118 elements / 8 aromatics / *, "
          "configurations @ @@ TH1-2 AL1-2 SP1-3 TB1-20 OH1-30, hydrogen count, charge -15..+15, map < 1000; bonds, ring numbers 0-99, dots, parenthesised branches. Proof token by token (every token reader consumes exactly what the automaton runs through and fails where it has no move; "
          "the reader's hand-typed symbol tables equal the periodic table by exhaustive kernel evaluation). Also: the verdict is a function of the string alone (followers cannot influence it; the correspondence runs four followers), completeness on the writer's image (T-wr), closure under rewrite. "
+         "SECOND FORMALISATION (accepts_iff_productions, Spec/Bnf.lean + Lemmas/BnfL.lean): the five productions written in the comments of src/read/read.rs (<smiles>, <body>, <branch>, <split>, <union>) as an inductive derivation relation over the terminals <atom> <bond> <rnum>, "
+         "with <body>* free to stop anywhere and every optional part a free choice; for EVERY string the reader accepts it IFF it has such a derivation (both directions), hence productions and automaton have the same sentences (productions_iff_automaton). "
          "Additionally the real reader's verdict is compared with Spec.classify executed by the Lean driver (field G) and with the harness's reference recogniser on every run.",
          "Lean 4 proof that the reader model accepts exactly an independently written grammar automaton (for all strings) + differential correspondence of the real reader with model and automaton", "4.4"),
  'C05': ("character_is_first_offending / end_of_line_is_viable_incomplete (Purr/Props/C05.lean): for EVERY refused string, if the reader reports Character(i) then i is inside the string, the first i characters can be extended to a string the reader accepts, and NO string beginning with the first i+1 characters is accepted; "
